@@ -4,7 +4,7 @@ reference encoding of every accepted call; capacity bound for multi-message pack
 import os
 from collections import Counter, defaultdict
 
-from .. import build, gen, model, runner, spec_lowlevel as S
+from .. import build, gen, model, runner, spec_lowlevel as S, sweep
 from ..scen import Scn, call, up
 
 ADDRS = [(0, 0, 0), (1, 0, 0), (2, 5, 0), (3, 254, 253)]
@@ -134,6 +134,39 @@ def gen_concurrent(ctx, k):
     sc.add('endpar', 'flush', 'quiesce', 'flush', 'mark done', 'stop')
     return sc.text(), calls, 64
 
+def gen_directed(ctx, k):
+    """directed preemption: thread A is paused at its j-th scheduling point inside a send (or a flush) while thread B sends messages full of
+    escapes to the same and to other nodes and flushes; j sweeps over lock operations and library function entries. Same oracle as the
+    concurrent scenarios: well-formed packets, whole messages, multiset equality, per-thread order."""
+    rng = ctx.sub_rng('dir', k)
+    fn = bool(k % 2)
+    kmax = 40 if fn else 9
+    sc = Scn(seed=ctx.seed * 100000 + k, perturb=0, watchdog=180000)
+    sc.add(*bus_lines(), 'debug 1', 'start @null 0')
+    zr = gen.zero_response_names()
+    calls = []
+    uid = [0]
+
+    def one(tname):
+        ad = rng.choice(ADDRS)
+        if rng.random() < 0.5:
+            uid[0] += 1
+            name, a = 'bidib_send_sys_clock', {'t0': uid[0] % 60, 't1': 0x80 + (uid[0] // 60) % 24, 't2': 0x40 + (uid[0] // 1440) % 7, 't3': 0xC0 + rng.randrange(32)}
+            st, data = S.expected(name, ad, a)
+        else:
+            name, ad, a, data = gen.random_call(rng, ad, names=zr, hot=0.8, long_bias=0.3)
+        calls.append((name, ad, data, None, tname))
+        return call(name, *S.tokens(name, ad, a))
+    for i in range(rng.randrange(40, 80)):
+        j = 1 + (i * 3 + k) % kmax
+        a_lines = [one('t0')] if rng.random() < 0.8 else ['flush']
+        b_lines = []
+        for _ in range(rng.randrange(1, 4)):
+            b_lines.append(one('t1') if rng.random() < 0.75 else 'flush')
+        sweep.add_two_thread_case(sc, i, a_lines, b_lines, j, fn, after=(('flush',) if rng.random() < 0.6 else ()))
+    sc.add('flush', 'quiesce', 'flush', 'mark done', 'stop')
+    return sc.text(), calls, 64
+
 # ---------------------------------------------------------------- oracle
 def evaluate(ctx, r, calls, cap, kind, meta):
     if ctx.generic_failures(r, meta):
@@ -241,7 +274,7 @@ def evaluate(ctx, r, calls, cap, kind, meta):
 def run(ctx):
     ctx.rule = ('seeded sequences of valid low-level calls (all send functions, address depth 0-3, bytes biased to FE/FD/00/FF, '
                 'max-length payloads, last byte solved so that the packet CRC is FE/FD), random flush placement; normal-mode sessions '
-                'with every announced capacity; concurrent senders with auto-flush under asan and tsan. non-trivial = distinct scenario '
+                'with every announced capacity; concurrent senders with auto-flush under asan and tsan; directed preemption (a sender or flush paused at each of its scheduling points while another thread sends and flushes). non-trivial = distinct scenario '
                 'with >=1 escaped byte or >=1 multi-message packet')
     ctx.assumptions = ['reference codec in vlib/model.py (CRC computed bitwise)', 'spec table vlib/spec_lowlevel.py for the reference encoding',
                        'simulated bus answers every request so that budget-deferred messages are eventually released']
@@ -258,6 +291,9 @@ def run(ctx):
     for k in range(nconc):
         text, calls, cap = gen_concurrent(ctx, k)
         jobs.append(('tsan' if k % 2 else 'asan', 'concurrent', text, calls, cap))
+    for k in range(ctx.n(24, 1000)):
+        text, calls, cap = gen_directed(ctx, k)
+        jobs.append(('mon' if k % 4 < 2 else 'asan', 'concurrent', text, calls, cap, 'directed'))
     import hashlib
     by_fl = {}
     for j in jobs:
@@ -267,6 +303,8 @@ def run(ctx):
         for j, r in zip(js, res):
             meta = {'kind': j[1], 'digest': hashlib.sha1(j[2].encode()).hexdigest()[:12], 'cap': j[4]}
             evaluate(ctx, r, j[3], j[4], j[1], meta)
+            if len(j) > 5:
+                sweep.pause_stats(ctx, r.events, 'directed')
             if len(ctx.samples) < 3 and j[1] not in [s.get('kind') for s in ctx.samples]:
                 ctx.samples.append({'kind': j[1], 'flavour': fl, 'scenario_head': j[2].split('\n')[:14], 'calls': len(j[3])})
     return ctx.finish(min_eval=50, min_nontrivial=20)
